@@ -835,7 +835,7 @@ fn read_if(cur: &mut SourceCursor, song: &mut Song) -> Token {
     let mut else_tok = vec![];
     cur.skip_space_ret();
     // read else block
-    if cur.eq("ELSE") || cur.eq("Else") {
+    if (cur.eq("ELSE") || cur.eq("Else")) && !matches!(cur.peek_n(4), 'A'..='Z' | 'a'..='z' | '_' | '0'..='9') { // the word ELSE, not a name that begins with it
         let else_lineno = cur.line;
         cur.next_n(4); // skip "ELSE"
         cur.skip_space();
